@@ -223,6 +223,46 @@ def c16(ctx):
                         return
     for x in getattr(ctx.run, "c16_findings", []):
         yield x
+    yield from spec_file_twin(ctx, rows)
+
+
+def spec_file_twin(ctx, rows):
+    """a literature spec file with the same job matrix compiles to the same problem as the bare DSL text"""
+    import os
+    import random
+    import tempfile
+    from jobshoplab.compiler import Compiler
+    from jobshoplab.compiler.repos import DslStrRepository, SpecRepository
+    if not rows or len({len(r) for r in rows}) != 1:
+        return
+    rnd = random.Random(len(rows) * 131 + sum(d for r in rows for _m, d in r))
+    nj, nm = len(rows), len(rows[0])
+    pad = rnd.choice(["", "", " ", "  "])
+    lines = ["# generated literature style instance file", f"{nj} {nm}"] + [pad + (" " if not pad else "  ").join(f"{m} {d}" for m, d in r) for r in rows]
+    text = "\n".join(lines) + "\n"
+    dsl = ("title: InstanceConfig\ninstance_config:\n  description: x\n  instance:\n    description: x\n    specification: |\n"
+           + "      " + "|".join(f"(m{i},t)" for i in range(nm)) + "\n"
+           + "".join(f"      j{k}|" + " ".join(f"({m},{d})" for m, d in r) + "\n" for k, r in enumerate(rows)))
+    cfg = ctx.run.cfg
+    fd, path = tempfile.mkstemp(suffix=".txt", prefix="jsl_spec_")
+    try:
+        with os.fdopen(fd, "w") as f:
+            f.write(text)
+        try:
+            a_inst, a_st = Compiler(cfg, "warning", repo=SpecRepository(path, "warning", cfg)).compile()
+        except Exception as e:  # noqa
+            yield F("spec-file-not-compiled", f"{type(e).__name__}: {e!s:.200} for\n{text}")
+            return
+        b_inst, b_st = Compiler(cfg, "warning", repo=DslStrRepository(dsl, "warning", cfg)).compile()
+    finally:
+        os.unlink(path)
+    got = [[(int(o.machine.split("-")[1]), o.duration.time) for o in j.operations] for j in a_inst.instance.specification]
+    if got != [list(map(tuple, r)) for r in rows]:
+        yield F("spec-file-jobs-differ", f"file\n{text}compiled to {got}")
+        return
+    if (a_inst.instance != b_inst.instance or a_inst.machines != b_inst.machines or a_inst.buffers != b_inst.buffers
+            or a_inst.transports != b_inst.transports or a_inst.logistics != b_inst.logistics or a_st != b_st):
+        yield F("spec-file-differs-from-equivalent-dsl", f"file\n{text}")
 
 
 def c17(ctx):
@@ -238,6 +278,11 @@ def c17(ctx):
     if not shape:
         yield F("initial-state-shape-differs-from-instance", "")
         return
+    places = {m.id for m in inst.machines} | {b.id for b in inst.buffers}
+    for (a, b) in inst.logistics.travel_times:
+        if a not in places or b not in places:
+            yield F("travel-endpoint-does-not-resolve", f"({a}, {b}) is not between machines / standalone buffers {sorted(places)}")
+            return
     if not cons:
         yield F("initial-state-not-conserved", "a job is not in exactly one buffer / location does not name it")
         return
